@@ -26,7 +26,7 @@ RULE = ("scenarios = synced array + pending change set (adds only / adds+deletes
         "previously synced file byte-exact; sync again exits 0, the C06 parity oracle holds, losing <= N devices is recoverable "
         "and check is clean. Graceful stop: SIGINT raised at the j-th parity write of sync, same follow-up (adds-only: up to N "
         "devices). Fix: kill at each of fix's own calls, run fix again, final tree equals the uninterrupted twin's tree (mtime of the "
-        "file being rewritten exempt). Between interruption and resume: old data re-added (changing sets) or pending files re-timed (copies with p=0.9). Non-trivial/distinct per (scenario, k, mode) whose rule fired.")
+        "file being rewritten exempt). Between interruption and resume: old data re-added (changing sets) or pending files re-timed (copies with p=0.9). One fix scenario in three is fix -m on a fragmented array, stopped gracefully at every call; if the uninterrupted run is not at its fix-point the comparison is made with a second uninterrupted run; a name holding exactly the recorded version where the uninterrupted run left name.unrecoverable counts as recovered more, not as a difference. Non-trivial/distinct per (scenario, k, mode) whose rule fired.")
 
 MODES = ("kill-before", "kill-after", "kill-mid")
 
